@@ -128,6 +128,29 @@ def judge(texts):
 BAD_SUFFIX = ['-x', '[1', '.', '..y', '[a]', ' z', ']', '[1]x', '.[0]', '[-1', '[ 1]', '[1].', '!', '/y', '.y-z', '[0][', '.0y']
 
 
+def word_cases():
+    """the text of a reference is a PATH, also when it reads as a YAML bool, null or non-canonical number (written unquoted)"""
+    out = []
+    for w in ('no', 'on', 'off', 'yes', 'null', '007', '010', '0x10', '1e3'):
+        out.append(dict(words=True, texts=["{'%s': [1, {k: 2}], '8': eight, '7': seven, 'None': n, 'False': f, 'True': t, r: !xref %s, s: {t: !xref %s}}" % (w, w, w)], word=w))
+    return out
+
+
+def judge_words(case):
+    from awesomeyaml.config import Config
+    k, root = oracles.build(case['texts'])
+    if k != 'ok':
+        return dict(case=case, reason='the document must build', got=k, message=str(root)[:200])
+    try:
+        cfg = Config(root)
+    except Exception as e:
+        return dict(case=case, reason='a reference to an existing key was not resolved', error=type(e).__name__ + ': ' + str(e)[:200])
+    w = case['word']
+    if cfg['r'] is not cfg[w] or cfg['s']['t'] is not cfg[w] or cfg[w] != [1, {'k': 2}]:
+        return dict(case=case, reason='the reference does not evaluate to the very object at the path its text names', got=repr(cfg['r'])[:100])
+    return None
+
+
 def gen_malformed(rng):
     """a reference whose text is an existing path followed by something that is not path syntax: it denotes no node, so it must be
     reported - never silently resolved to the node its valid prefix names (the reference graph above is computed with the library's
@@ -198,6 +221,7 @@ def run(rep, tier, rng):
               ["{box: {shared: [1, {k: 2}]}, shared: {z: 1}, early: !xref shared, n: !call:vmod.nb {x: 1}, late_nested: !xref box.shared, late: !xref shared}"],
               ["{shared: [0]}", "{n: !call vmod.nb, late: !xref shared}"]]
     base.run_oracle(rep, 'C09', 'references across a nested evaluation (a call target that builds another config)', nested, judge_nested, show=lambda t: dict(nested=True, texts=t))
+    base.run_oracle(rep, 'C09', 'reference texts that read as YAML words', word_cases(), judge_words)
     base.run_oracle(rep, 'C09', 'references with a malformed tail denote no node and are reported', [gen_malformed(rng) for _ in range(80 if tier == 'quick' else 1500)],
                     judge_malformed, show=lambda t: dict(malformed=True, texts=t))
 
@@ -205,7 +229,9 @@ def run(rep, tier, rng):
 def replay(data):
     r = data['replay']
     if 'input' in r:
-        if isinstance(r['input'], dict) and r['input'].get('nested'):
+        if isinstance(r['input'], dict) and (r['input'].get('words') or (isinstance(r['input'].get('case'), dict) and r['input']['case'].get('words'))):
+            f = judge_words(r['input'].get('case', r['input']))
+        elif isinstance(r['input'], dict) and r['input'].get('nested'):
             f = judge_nested(r['input']['texts'])
         else:
             f = judge_malformed(r['input']['texts']) if isinstance(r['input'], dict) and r['input'].get('malformed') else judge(r['input'])
